@@ -9,8 +9,8 @@ from harness.rowtrace import norm_obs_expr, norm_src_expr
 
 DATASET = {"valid": "people", "reserved_prefix": "__people", "period": "peo.ple", "digit_first": "1people", "space": "peo ple"}
 PROP = {"valid": None, "name": "name", "Label": "Label", "reserved_prefix": "__p", "digit_first": "1p", "space": "p q"}
-SITE_ROW = {"top": "t1", "group": "t2", "repeat": "t3", "grouprow": "g1"}
-SITE_PATH = {"top": ["t1"], "group": ["g1", "t2"], "repeat": ["r1", "t3"], "grouprow": ["g1"]}
+SITE_ROW = {"top": "t1", "group": "t2", "repeat": "t3", "grouprow": "g1", "group_in_repeat": "t4"}
+SITE_PATH = {"top": ["t1"], "group": ["g1", "t2"], "repeat": ["r1", "t3"], "grouprow": ["g1"], "group_in_repeat": ["r1", "g2", "t4"]}
 
 
 def build(case):
@@ -29,6 +29,9 @@ def build(case):
         {"type": "end group"},
         {"type": "begin repeat", "name": "r1", "label": "R1"},
         {"type": "text", "name": "t3", "label": "T3"},
+        {"type": "begin group", "name": "g2", "label": "G2"},
+        {"type": "text", "name": "t4", "label": "T4"},
+        {"type": "end group"},
         {"type": "end repeat"},
     ]
     byname = {r.get("name"): r for r in rows}
@@ -51,6 +54,8 @@ def build(case):
             ecols.append("wat")
             erow.append("x")
         sheets.append({"name": "entities", "header": ecols, "rows": [list(erow) for _ in range(case["nrows"])]})
+    if case.get("nsset"):
+        sheets.append({"name": "settings", "header": ["namespaces", "attribute::cx:marker"], "rows": [['cx="http://example.com/cx" cy="http://example.com/cy"', "m"]]})
     idn = norm_src_expr(expr["id"])
     src = {"dataset": ds, "id": idn, "cr": norm_src_expr(expr["cr"]), "up": norm_src_expr(expr["up"]), "lab": norm_src_expr(expr["lab"]),
            "ver": [norm_src_expr(f"instance('{ds}')/root/item[name={expr['id']}]/{v}") for v in ("__version", "__trunkVersion", "__branchId")],
@@ -59,6 +64,8 @@ def build(case):
 
 
 def observe(xform):
+    if not project.wellformed(xform)["parse_ok"]:
+        return {"parse_ok": False, "custom_ns_declared": False, "present": False, "attrs": [], "has_label": False, "binds": [], "setvalue": [], "version": "", "ns_declared": False, "saveto": []}
     root = project.parse(xform)
     prim = project.primary_root(root)
     rootname = project.local(prim.tag)
@@ -81,6 +88,8 @@ def observe(xform):
     model = project.model_of(root)
     m = re.search(r"<h:html([^>]*)>", xform)
     return {
+        "parse_ok": True,
+        "custom_ns_declared": bool(m and 'xmlns:cx="http://example.com/cx"' in m.group(1) and 'xmlns:cy="http://example.com/cy"' in m.group(1)),
         "present": ent is not None,
         "attrs": [[project.qname(k), v] for k, v in ent.attrib.items()] if ent is not None else [],
         "has_label": ent is not None and any(project.local(c.tag) == "label" for c in ent),
